@@ -329,7 +329,7 @@ func (r *BinaryReader) Seek(off int64, whence int) (int64, error) {
 		if off < -r.f.Len() || 0 < off {
 			return 0, fmt.Errorf("invalid offset")
 		}
-		r.pos = r.f.Len() - off
+		r.pos = r.f.Len() + off
 	} else {
 		return 0, fmt.Errorf("invalid whence")
 	}
